@@ -69,7 +69,7 @@ def build_data(spec):
             # seconds apart; int32 counters): an intermediate computed in the item's own type wraps around silently
             import numpy
             if kind == 'np_int64':
-                xs.append(numpy.int64(1_000_000_000_000_000 + r.randint(0, 9_000_000_000)))     # (sums of 10^4 such items still fit int64)
+                xs.append(numpy.int64(100_000_000_000_000 + r.randint(0, 9_000_000_000)))     # (1e14: sums of 10^4 such items still fit int64)
             else:
                 xs.append(numpy.int32(r.randint(-100_000, 100_000)))
             continue
